@@ -69,7 +69,7 @@ def build_harness():
         if not os.path.exists(lock):
             import shutil
             shutil.copy(os.path.join(REPO, "Cargo.lock"), lock)
-        rc, out = sh(["cargo", "build", "--offline"], cwd=HARNESS, timeout=1800)
+        rc, out = sh(["cargo", "build", "--offline", "--target-dir", os.path.join(WORK, "harness-target")], cwd=HARNESS, timeout=1800)
         return rc == 0, out
 
 
